@@ -5,6 +5,9 @@ package main
 
 import (
 	"bytes"
+	"go/types"
+
+	"golang.org/x/tools/go/ssa"
 	"encoding/hex"
 	"regexp"
 	"sort"
@@ -63,6 +66,24 @@ func (db *SpecDB) prelude() *Prelude {
 		}
 	}
 	p := &Prelude{decls: sb.String(), axioms: append([]axiom{}, coreAxioms...)}
+	// defined spec functions: (define-fun name ((p Int) ...) Int body)
+	for _, name := range db.DefineOrder {
+		d := db.Defines[name]
+		ex := &Exec{db: db, loopCache: map[*ssa.Function]*LoopInfo{}, usedUnknown: map[string]bool{}, usedContracts: map[string]bool{}}
+		st := newState(ex)
+		st.allocCtr = IntLit(1)
+		vars := map[string]Val{}
+		var ps []string
+		for _, pn := range d.Params {
+			vars[pn] = TV(mkTerm("d_"+pn, SortInt), types.Typ[types.Int])
+			ps = append(ps, "(d_"+pn+" Int)")
+		}
+		v, err := ex.evalSpec(d.Body, &Env{ex: ex, st: st, vars: vars})
+		if err != nil || v.Kind != VTerm {
+			panic(fmt.Sprintf("define %s: %v", name, err))
+		}
+		p.axioms = append(p.axioms, axiom{name, fmt.Sprintf("(define-fun %s (%s) %s %s)", name, strings.Join(ps, " "), v.T.Sort, v.T.S)})
+	}
 	for _, l := range db.SMT {
 		// "smt @sym (assert ...)" gives the trigger explicitly; otherwise the
 		// head symbol of the first :pattern is used; none = always included
@@ -137,6 +158,12 @@ func sortedSpecFns(db *SpecDB) []string {
 
 // buildScript renders cmds[:upto] with only check `only` posed (or all if only<0).
 func buildScript(prelude *Prelude, pre string, cmds []Cmd, only int, timeoutMs int, model bool) string {
+	bridge := false
+	for _, c := range cmds {
+		if c.Text == ";;mode bvbridge" {
+			bridge = true
+		}
+	}
 	var hd, sb strings.Builder
 	if model {
 		hd.WriteString("(set-option :produce-models true)\n")
@@ -178,7 +205,9 @@ func buildScript(prelude *Prelude, pre string, cmds []Cmd, only int, timeoutMs i
 	}
 	body := sb.String()
 	pre2 := prelude.render(body)
-	return hd.String() + renderLits(pre2+body, prelude.decls) + pre2[len(prelude.decls):] + body
+	axioms := pre2[len(prelude.decls):]
+	// order: sort/function declarations, literals, bit operations, axioms, path
+	return hd.String() + renderLits(pre2+body, prelude.decls) + renderBvops(axioms+body, bridge) + axioms + body
 }
 
 var litRe = regexp.MustCompile(`lit_[0-9a-fh_]+`)
@@ -342,6 +371,9 @@ func solveOne(pi, i int, p *PathResult, cfg solveCfg) *CheckResult {
 	if ck.ExpectSat {
 		tmo = 2000
 	}
+	if ck.TimeoutMs > tmo {
+		tmo = ck.TimeoutMs
+	}
 	type res struct {
 		si   int
 		ans  string
@@ -360,6 +392,9 @@ func solveOne(pi, i int, p *PathResult, cfg solveCfg) *CheckResult {
 		go func(si int) {
 			s := solvers[si]
 			q := buildScript(cfg.prelude, s.Pre, p.Script, i, tmo, !ck.ExpectSat)
+			if ck.Raw != "" {
+				q = fmt.Sprintf("(set-option :produce-models true)\n%s(get-model)\n", strings.Replace(ck.Raw, "(check-sat)", fmt.Sprintf("(echo \"@@check %d\")\n(check-sat)", i), 1))
+			}
 			tag := fmt.Sprintf("p%d_c%d_s%d", pi, i, si)
 			f := filepath.Join(cfg.dir, tag+".smt2")
 			os.WriteFile(f, []byte(q), 0644)
@@ -490,4 +525,43 @@ func tail(s string, n int) string {
 		return s
 	}
 	return s[len(s)-n:]
+}
+
+var bvopRe = regexp.MustCompile(`bvop\.(and|or|xor|shl|shr|andnot)(8|16|32|64)`)
+
+// renderBvops declares the bit operations a query mentions: uninterpreted
+// (with range facts) by default, defined through int2bv/bv2nat in bvbridge mode.
+func renderBvops(body string, bridge bool) string {
+	seen := map[string]bool{}
+	var sb strings.Builder
+	for _, m := range bvopRe.FindAllStringSubmatch(body, -1) {
+		fn := m[0]
+		if seen[fn] {
+			continue
+		}
+		seen[fn] = true
+		op, w := m[1], m[2]
+		if bridge {
+			bv := map[string]string{"and": "bvand", "or": "bvor", "xor": "bvxor", "shl": "bvshl", "shr": "bvlshr"}[op]
+			if op == "andnot" {
+				fmt.Fprintf(&sb, "(define-fun %s ((a Int) (b Int)) Int (bv2nat (bvand ((_ int2bv %s) a) (bvnot ((_ int2bv %s) b)))))\n", fn, w, w)
+			} else {
+				fmt.Fprintf(&sb, "(define-fun %s ((a Int) (b Int)) Int (bv2nat (%s ((_ int2bv %s) a) ((_ int2bv %s) b))))\n", fn, bv, w, w)
+			}
+		} else {
+			fmt.Fprintf(&sb, "(declare-fun %s (Int Int) Int)\n", fn)
+			// elementary bounds that hold for the bit-vector meaning
+			switch op {
+			case "and":
+				fmt.Fprintf(&sb, "(assert (forall ((a Int) (b Int)) (! (=> (and (>= a 0) (>= b 0)) (and (>= (%s a b) 0) (<= (%s a b) a) (<= (%s a b) b))) :pattern ((%s a b)))))\n", fn, fn, fn, fn)
+			case "shr":
+				fmt.Fprintf(&sb, "(assert (forall ((a Int) (b Int)) (! (=> (and (>= a 0) (>= b 0)) (and (>= (%s a b) 0) (<= (%s a b) a))) :pattern ((%s a b)))))\n", fn, fn, fn)
+			case "andnot":
+				fmt.Fprintf(&sb, "(assert (forall ((a Int) (b Int)) (! (=> (and (>= a 0) (>= b 0)) (and (>= (%s a b) 0) (<= (%s a b) a))) :pattern ((%s a b)))))\n", fn, fn, fn)
+			default:
+				fmt.Fprintf(&sb, "(assert (forall ((a Int) (b Int)) (! (=> (and (>= a 0) (>= b 0)) (>= (%s a b) 0)) :pattern ((%s a b)))))\n", fn, fn)
+			}
+		}
+	}
+	return sb.String()
 }
